@@ -43,8 +43,9 @@ PROPS = {
     "C20": {
         "streams": [S("seqapi", 150, 3000, vm=(5, 100), vm_maxlen=5000)],
         "trusted": [GO, "go/ast translator harness/cmd/wh/facts.go (call-site scan) and the compiled MetricDefinitions tables"],
-        "assumptions": ["segment_rotations has no specification-level total (it is compared with the model only)"],
-        "rule": "seeded op sequences (stores incl. invalid shapes, deletes at all positions, reads, stable ops, reopen) over 7 segment sizes, on crashfs and on the real fs+BoltDB; metrics summary compared with the model after every M op and with independently computed true totals; distinct = distinct input lines",
+        "assumptions": ["segment_rotations: the true total is the number of rotation-shaped commits of the persisted-metadata history since the last Open (is_rotation, Wal/MetricsSpec.v; theorem C20_rotations_true, per lifetime); the implementation-side twin (crashFS.isRotation) needs the recorded commits and segment file images, so it runs on crashfs lines only, not on the real fs + BoltDB, and like the other counter oracles not after injected faults",
+                        "the nine other totals come from the contiguous-log specification; all totals are per Open (a fresh collector at every Open)"],
+        "rule": "seeded op sequences (stores incl. invalid shapes, deletes at all positions, reads, stable ops, reopen) over 7 segment sizes, on crashfs and on the real fs+BoltDB; metrics summary compared with the model after every M op and with independently computed true totals (all ten counters: nine from the reference log, segment_rotations from the commits crashfs recorded since the last Open); distinct = distinct input lines",
     },
     "C05": {
         "streams": [S("seqapi", 250, 6000, vm=(6, 120), vm_maxlen=5000)],
